@@ -31,7 +31,27 @@ NONDET = re.compile(r'random|unique[-_]id', re.I)
 
 LIB1 = {'_lib.scss': '$v: 1 !default; $w: 10; @function f($x) { @return $x + $v; } @mixin m { q: $w; } .lib { v: $v; }'}
 LIB2 = {'_lib.scss': '$v: 2 !default; $w: 20; @function f($x) { @return $x * $v; } @mixin m { r: $w; } .lib { v: $v; other: yes; }'}
+# the same url resolving to different candidate files in consecutive loaders (a resolution cache that outlives a compilation)
+T_IDX = {'theme/_index.scss': '$c: red; .theme { from: index; }'}
+T_BOTH = {'_theme.scss': '$c: blue; .theme { from: partial; }', 'theme/_index.scss': '$c: red; .theme { from: index; }'}
+T_PLAIN = {'theme.scss': '$c: green; .theme { from: plain; }', '_theme.scss': '$c: blue; .theme { from: partial; }'}
+T_CSS = {'theme.css': '.theme { from: css; }'}
+T_CSS_SCSS = {'theme.css': '.theme { from: css; }', 'theme/index.scss': '$c: red; .theme { from: index; }'}
 ATTACKS = [
+    (T_IDX, '@use "theme"; a { b: theme.$c; }'),
+    (T_BOTH, '@use "theme"; a { b: theme.$c; }'),
+    (T_PLAIN, '@use "theme"; a { b: theme.$c; }'),
+    (T_IDX, '@import "theme"; a { b: $c; }'),
+    (T_BOTH, '@import "theme"; a { b: $c; }'),
+    (T_PLAIN, '@import "theme"; a { b: $c; }'),
+    (T_CSS, '@import "theme"; a { b: c; }'),
+    (T_CSS_SCSS, '@import "theme"; a { b: c; }'),
+    (T_CSS, '@use "theme"; a { b: c; }'),
+    (T_CSS_SCSS, '@use "theme"; a { b: c; }'),
+    (T_IDX, '@use "sass:meta"; a { @include meta.load-css("theme"); }'),
+    (T_BOTH, '@use "sass:meta"; a { @include meta.load-css("theme"); }'),
+    (T_BOTH, '@forward "theme"; a { b: c; }'),
+    (T_IDX, '@forward "theme"; a { b: c; }'),
     ({}, '@use "sass:math" with ($pi: 3); a { b: math.$pi; }'),
     ({}, '@use "sass:math"; math.$pi: 3; a { b: math.$pi; }'),
     ({}, '@use "sass:math"; a { b: math.$pi; c: math.$e; d: math.div(1, 3); }'),
